@@ -12,6 +12,12 @@ mod tests_block_ordering;
 mod tests_breaking_changes;
 #[cfg(all(test, feature = "verif"))]
 mod verif;
+#[cfg(all(test, feature = "verif"))]
+mod verif_ledger;
+#[cfg(all(test, feature = "verif"))]
+mod verif_c14;
+#[cfg(all(test, feature = "verif"))]
+mod verif_c05;
 
 pub(crate) mod vote_extension;
 
